@@ -12,14 +12,23 @@ package store
 // is known (state(n)). While it runs, backups are taken in generated
 // format x flag combinations (binary / DELETE / SQL, vacuum, compress, leader
 // flag, destination = memory buffer or *os.File, optional table list for SQL),
-// with raft snapshots forced to happen concurrently (low thresholds).
+// with raft snapshots forced to happen concurrently (low thresholds). In "hook"
+// mode the destination writer, on its first Write (mid-stream), waits until the
+// writer goroutine has committed a few more transfers and calls
+// Store.Snapshot(0) before letting the copy continue, so that a checkpoint of
+// new commits into the main file is attempted inside the copy window.
+// Row keys run from negative values through 0 to positive ones (and up to 1500
+// rows per table); a WITHOUT ROWID table and a rowid table with explicit
+// non-positive / sparse rowids carry static content.
 //
 // Oracle (independent: raw driver + arithmetic on the transfer list):
 //   success => the bytes (gunzipped if compressed; an SQL dump is executed
 //   into a fresh raw-driver database) open, PRAGMA integrity_check = ok,
 //   ver_a == ver_b == n, n is between the last version acknowledged before the
 //   backup started and the number of transfers issued when it returned, and
-//   every row of acct_a/acct_b equals state(n). An error return is always
+//   the COMPLETE logical content (every row of every table, schema objects)
+//   equals that of a model database (the same statements on a raw-driver
+//   in-memory database) advanced to n transfers. An error return is always
 //   acceptable (counted).
 
 import (
@@ -32,6 +41,7 @@ import (
 	"os"
 	"path/filepath"
 	"strings"
+	"sync"
 	"sync/atomic"
 	"testing"
 	"time"
@@ -55,10 +65,11 @@ type c21Backup struct {
 	ToFile   bool
 	Tables   bool // sql only: restrict to acct_a and the two version tables
 	AfterMs  int  // pause before this backup
+	Hook     bool // destination triggers commits + Store.Snapshot(0) on its first Write
 }
 
 func (b c21Backup) String() string {
-	return fmt.Sprintf("%s vacuum=%v gz=%v leader=%v file=%v tables=%v", b.Format, b.Vacuum, b.Compress, b.Leader, b.ToFile, b.Tables)
+	return fmt.Sprintf("%s vacuum=%v gz=%v leader=%v file=%v tables=%v hook=%v", b.Format, b.Vacuum, b.Compress, b.Leader, b.ToFile, b.Tables, b.Hook)
 }
 
 func (b c21Backup) req() *proto.BackupRequest {
@@ -100,18 +111,21 @@ func c21Gen(rt *rapid.T) c21Case {
 	}
 	nb := rapid.IntRange(3, vstat.Scale(7, 14)).Draw(rt, "nBackups")
 	for i := 0; i < nb; i++ {
-		b := c21Backup{Format: rapid.SampledFrom([]string{"binary", "binary", "delete", "sql", "sql"}).Draw(rt, "format")}
+		b := c21Backup{Format: rapid.SampledFrom([]string{"binary", "binary", "binary", "delete", "sql", "sql"}).Draw(rt, "format")}
 		b.Compress = rapid.Bool().Draw(rt, "compress")
 		b.Leader = rapid.Bool().Draw(rt, "leader")
 		b.ToFile = rapid.Bool().Draw(rt, "toFile")
 		if b.Format == "binary" {
-			b.Vacuum = rapid.Bool().Draw(rt, "vacuum")
+			b.Vacuum = rapid.IntRange(0, 2).Draw(rt, "vacuum") == 0
 		} else if b.Format == "delete" {
 			b.Vacuum = rapid.IntRange(0, 4).Draw(rt, "vacuumDelete") == 0 // documented as invalid: must be an error
 		} else {
 			b.Tables = rapid.IntRange(0, 4).Draw(rt, "tables") == 0
 		}
 		b.AfterMs = rapid.IntRange(0, 15).Draw(rt, "afterMs")
+		if !b.ToFile {
+			b.Hook = rapid.Bool().Draw(rt, "hook")
+		}
 		c.Backups = append(c.Backups, b)
 	}
 	return c
@@ -119,18 +133,111 @@ func c21Gen(rt *rapid.T) c21Case {
 
 const c21Initial = 1000
 
-// c21State returns the balances after the first n transfers.
-func c21State(c c21Case, n int) (a, b map[int]int) {
-	a, b = map[int]int{}, map[int]int{}
-	for k := 1; k <= c.Rows; k++ {
-		a[k], b[k] = c21Initial, c21Initial
+// c21Key maps a transfer's row number (1..Rows) to the row key: keys run from
+// negative values through 0 to positive ones.
+func c21Key(c c21Case, i int) int { return i - c.Rows/3 - 1 }
+
+func c21TransferStmts(c c21Case, tr c21Transfer) []string {
+	return []string{
+		fmt.Sprintf("UPDATE acct_a SET bal = bal - %d WHERE k = %d", tr.X, c21Key(c, tr.A)),
+		"UPDATE ver_a SET ver = ver + 1",
+		fmt.Sprintf("UPDATE acct_b SET bal = bal + %d WHERE k = %d", tr.X, c21Key(c, tr.B)),
+		"UPDATE ver_b SET ver = ver + 1",
 	}
-	for i := 0; i < n; i++ {
-		t := c.Transfers[i]
-		a[t.A] -= t.X
-		b[t.B] += t.X
+}
+
+func c21Setup(c c21Case) []string {
+	pad := strings.Repeat("p", c.Pad)
+	setup := []string{
+		"CREATE TABLE acct_a(k INTEGER PRIMARY KEY, bal INTEGER, pad TEXT)",
+		"CREATE TABLE acct_b(k INTEGER PRIMARY KEY, bal INTEGER, pad TEXT)",
+		"CREATE TABLE ver_a(ver INTEGER)",
+		"CREATE TABLE ver_b(ver INTEGER)",
+		"INSERT INTO ver_a VALUES(0)",
+		"INSERT INTO ver_b VALUES(0)",
+		"CREATE INDEX acct_a_bal ON acct_a(bal)",
+		"CREATE TABLE wr(name TEXT PRIMARY KEY, v INTEGER) WITHOUT ROWID",
+		"INSERT INTO wr VALUES('', 0),('a', 1),('b', -2),('zz', 3)",
+		"CREATE TABLE gaps(v TEXT)",
+		"INSERT INTO gaps(rowid, v) VALUES(-9223372036854775807,'min'),(-5,'neg'),(0,'zero'),(1,'one'),(7,'seven'),(5000,'far'),(4000000000,'big')",
 	}
-	return
+	for i := 1; i <= c.Rows; i += 100 {
+		var va []string
+		for j := i; j < i+100 && j <= c.Rows; j++ {
+			va = append(va, fmt.Sprintf("(%d,%d,'%s')", c21Key(c, j), c21Initial, pad))
+		}
+		setup = append(setup, "INSERT INTO acct_a VALUES"+strings.Join(va, ","), "INSERT INTO acct_b VALUES"+strings.Join(va, ","))
+	}
+	return setup
+}
+
+// c21Content renders the complete logical content of the given tables (all
+// columns of every row, ordered; rowids of tables without an INTEGER PRIMARY
+// KEY are not content: neither VACUUM nor an SQL dump preserves them) plus the
+// names of the schema objects.
+func c21Content(db *sql.DB, restricted bool) (map[string][]string, error) {
+	cols := map[string]string{
+		"acct_a": "k||'|'||bal||'|'||quote(pad)",
+		"acct_b": "k||'|'||bal||'|'||quote(pad)",
+		"ver_a":  "ver",
+		"ver_b":  "ver",
+		"wr":     "quote(name)||'|'||v",
+		"gaps":   "quote(v)",
+	}
+	tables := []string{"acct_a", "acct_b", "ver_a", "ver_b", "wr", "gaps"}
+	if restricted {
+		tables = []string{"acct_a", "ver_a", "ver_b"}
+	}
+	out := map[string][]string{}
+	for _, t := range tables {
+		rows, err := db.Query(fmt.Sprintf("SELECT %s FROM %s ORDER BY 1", cols[t], t))
+		if err != nil {
+			return nil, fmt.Errorf("%s: %w", t, err)
+		}
+		var lines []string
+		for rows.Next() {
+			var l sql.NullString
+			if err := rows.Scan(&l); err != nil {
+				rows.Close()
+				return nil, err
+			}
+			lines = append(lines, l.String)
+		}
+		rows.Close()
+		if err := rows.Err(); err != nil {
+			return nil, err
+		}
+		out[t] = lines
+	}
+	if !restricted {
+		rows, err := db.Query("SELECT type||' '||name FROM sqlite_master ORDER BY 1")
+		if err != nil {
+			return nil, err
+		}
+		var lines []string
+		for rows.Next() {
+			var l string
+			rows.Scan(&l)
+			lines = append(lines, l)
+		}
+		rows.Close()
+		out["(schema objects)"] = lines
+	}
+	return out, nil
+}
+
+// c21HookWriter runs hook once, on the first Write.
+type c21HookWriter struct {
+	buf  bytes.Buffer
+	once sync.Once
+	hook func()
+	n    int
+}
+
+func (w *c21HookWriter) Write(p []byte) (int, error) {
+	w.once.Do(w.hook)
+	w.n++
+	return w.buf.Write(p)
 }
 
 func c21ReadVer(db *sql.DB, table string) (int, error) {
@@ -150,23 +257,6 @@ func c21ReadVer(db *sql.DB, table string) (int, error) {
 		return 0, fmt.Errorf("%s has %d rows", table, n)
 	}
 	return v, rows.Err()
-}
-
-func c21ReadAcct(db *sql.DB, table string) (map[int]int, error) {
-	rows, err := db.Query("SELECT k, bal FROM " + table)
-	if err != nil {
-		return nil, err
-	}
-	defer rows.Close()
-	m := map[int]int{}
-	for rows.Next() {
-		var k, bal int
-		if err := rows.Scan(&k, &bal); err != nil {
-			return nil, err
-		}
-		m[k] = bal
-	}
-	return m, rows.Err()
 }
 
 // c21Open turns backup bytes into an open raw-driver database.
@@ -209,7 +299,7 @@ func c21Open(dir string, b c21Backup, data []byte) (*sql.DB, string, error) {
 
 func TestVerif_C21_Local(t *testing.T) {
 	rec := vstat.New(t, "C21", "local",
-		"real single-node Store; writer goroutine issuing a generated list of transfer transactions (acct_a -> acct_b, version counter in ver_a and ver_b) over tables of {5,50,400,1500} rows x padding {0,40,300} bytes; 3..7 (thorough ..14) backups per case in generated format {binary,delete,sql} x vacuum x compress x leader flag x destination {buffer,file} x table list, with forced raft snapshots every {never,20,60} entries; non-trivial = at least one successful backup was taken while the writer committed something between its start and end; distinct by (rows,pad,snap,backup list,first transfers)")
+		"real single-node Store; writer goroutine issuing a generated list of transfer transactions (acct_a -> acct_b, version counter in ver_a and ver_b) over tables of {5,50,400,1500} rows x padding {0,40,300} bytes; 3..7 (thorough ..14) backups per case in generated format {binary,delete,sql} x vacuum x compress x leader flag x destination {buffer,file,hooked writer that lets commits land and calls Store.Snapshot mid-copy} x table list; row keys from negative through 0 to positive, a WITHOUT ROWID table, a rowid table with non-positive and sparse rowids; complete content compared; with forced raft snapshots every {never,20,60} entries; non-trivial = at least one successful backup was taken while the writer committed something between its start and end; distinct by (rows,pad,snap,backup list,first transfers)")
 	rapid.Check(t, func(rt *rapid.T) {
 		c := c21Gen(rt)
 		dir, err := os.MkdirTemp("", "c21-")
@@ -230,23 +320,18 @@ func TestVerif_C21_Local(t *testing.T) {
 		defer n.Close()
 		s := n.S
 
-		pad := strings.Repeat("p", c.Pad)
-		setup := []string{
-			"CREATE TABLE acct_a(k INTEGER PRIMARY KEY, bal INTEGER, pad TEXT)",
-			"CREATE TABLE acct_b(k INTEGER PRIMARY KEY, bal INTEGER, pad TEXT)",
-			"CREATE TABLE ver_a(ver INTEGER)",
-			"CREATE TABLE ver_b(ver INTEGER)",
-			"INSERT INTO ver_a VALUES(0)",
-			"INSERT INTO ver_b VALUES(0)",
-			"CREATE INDEX acct_a_bal ON acct_a(bal)",
+		setup := c21Setup(c)
+		model, err := vsql.OpenMem()
+		if err != nil {
+			rt.Skip("model")
 		}
-		for k := 1; k <= c.Rows; k += 100 {
-			var va []string
-			for j := k; j < k+100 && j <= c.Rows; j++ {
-				va = append(va, fmt.Sprintf("(%d,%d,'%s')", j, c21Initial, pad))
+		defer model.Close()
+		for _, st := range setup {
+			if _, err := model.Exec(st); err != nil {
+				t.Fatalf("harness: model setup: %v", err)
 			}
-			setup = append(setup, "INSERT INTO acct_a VALUES"+strings.Join(va, ","), "INSERT INTO acct_b VALUES"+strings.Join(va, ","))
 		}
+		modelVer := 0
 		if _, _, err := g8bExec(s, true, setup...); err != nil {
 			t.Logf("infrastructure: setup: %v", err)
 			rt.Skip("setup failed")
@@ -266,11 +351,7 @@ func TestVerif_C21_Local(t *testing.T) {
 				default:
 				}
 				issued.Store(int64(i + 1))
-				_, _, err := g8bExec(s, true,
-					fmt.Sprintf("UPDATE acct_a SET bal = bal - %d WHERE k = %d", tr.X, tr.A),
-					fmt.Sprintf("UPDATE ver_a SET ver = ver + 1"),
-					fmt.Sprintf("UPDATE acct_b SET bal = bal + %d WHERE k = %d", tr.X, tr.B),
-					fmt.Sprintf("UPDATE ver_b SET ver = ver + 1"))
+				_, _, err := g8bExec(s, true, c21TransferStmts(c, tr)...)
 				if err != nil {
 					werr = err
 					return
@@ -318,6 +399,27 @@ func TestVerif_C21_Local(t *testing.T) {
 					}
 				}
 				os.Remove(f.Name())
+			} else if b.Hook {
+				hw := &c21HookWriter{}
+				hw.hook = func() {
+					// mid-stream: let the writer commit a few more transfers, then ask for
+					// a snapshot (a checkpoint of those commits into the main file)
+					base := acked.Load()
+					deadline := time.Now().Add(2 * time.Second)
+					for acked.Load() < base+3 && int(issued.Load()) < len(c.Transfers) && time.Now().Before(deadline) {
+						time.Sleep(time.Millisecond)
+					}
+					if err := s.Snapshot(0); err == nil {
+						rec.Label("hook-snapshot-done/" + b.Format)
+					} else {
+						rec.Label("hook-snapshot-refused/" + b.Format)
+					}
+				}
+				berr = s.Backup(context.Background(), b.req(), hw)
+				data = hw.buf.Bytes()
+				if hw.n > 1 {
+					rec.Label("hook-copy-spans-several-writes")
+				}
 			} else {
 				var buf bytes.Buffer
 				berr = s.Backup(context.Background(), b.req(), &buf)
@@ -367,43 +469,64 @@ func TestVerif_C21_Local(t *testing.T) {
 				fail(sig, "a successful backup does not contain writes acknowledged before it started", "%s: backup is at version %d", ctxs, va)
 				return
 			}
-			{
-				wantA, wantB := c21State(c, va)
-				type tbl struct {
-					name string
-					want map[int]int
-				}
-				tbls := []tbl{{"acct_a", wantA}, {"acct_b", wantB}}
-				if b.Format == "sql" && b.Tables {
-					tbls = tbls[:1]
-				}
-				for _, tb := range tbls {
-					got, err := c21ReadAcct(db, tb.name)
-					if err != nil {
-						db.Close()
-						fail("C21/backup-incomplete", "a successful backup lacks a table or row", "%s: %s: %v", ctxs, tb.name, err)
-						return
+			// complete logical content against the model advanced to version va
+			for modelVer < va {
+				for _, st := range c21TransferStmts(c, c.Transfers[modelVer]) {
+					if _, err := model.Exec(st); err != nil {
+						t.Fatalf("harness: model: %v", err)
 					}
-					if len(got) != len(tb.want) {
-						db.Close()
-						fail("C21/backup-incomplete", "a successful backup lacks a table or row", "%s: %s has %d rows, want %d", ctxs, tb.name, len(got), len(tb.want))
-						return
+				}
+				modelVer++
+			}
+			if modelVer != va {
+				t.Fatalf("harness: backup versions went backwards (%d after %d)", va, modelVer)
+			}
+			restricted := b.Format == "sql" && b.Tables
+			got, err := c21Content(db, restricted)
+			if err != nil {
+				db.Close()
+				fail("C21/backup-incomplete", "a successful backup lacks a table or row", "%s: %v", ctxs, err)
+				return
+			}
+			want, err := c21Content(model, restricted)
+			if err != nil {
+				t.Fatalf("harness: model content: %v", err)
+			}
+			for _, tb := range []string{"(schema objects)", "ver_a", "ver_b", "wr", "gaps", "acct_a", "acct_b"} {
+				w, ok := want[tb]
+				if !ok {
+					continue
+				}
+				g := got[tb]
+				if len(g) < len(w) {
+					missing := ""
+					have := map[string]bool{}
+					for _, l := range g {
+						have[l] = true
 					}
-					for k, w := range tb.want {
-						if got[k] != w {
-							db.Close()
-							fail("C21/mixed-points-in-time/"+b.Format, "a successful "+b.Format+" backup shows two tables at different versions",
-								"%s: version tables say %d, but %s[%d]=%d where the state after %d transfers has %d", ctxs, va, tb.name, k, got[k], va, w)
-							return
+					for _, l := range w {
+						if !have[l] {
+							missing = l
+							break
 						}
 					}
-				}
-				// the index must have come along too
-				var cnt int
-				if err := db.QueryRow("SELECT count(*) FROM sqlite_master WHERE type='index' AND name='acct_a_bal'").Scan(&cnt); err != nil || cnt != 1 {
 					db.Close()
-					fail("C21/backup-incomplete", "a successful backup lacks a table or row", "%s: index acct_a_bal missing (%v)", ctxs, err)
+					fail("C21/backup-incomplete/"+b.Format, "a successful "+b.Format+" backup lacks rows or schema objects",
+						"%s: %s has %d entries in the backup, %d in the committed state at version %d; e.g. missing %q", ctxs, tb, len(g), len(w), va, missing)
 					return
+				}
+				if len(g) > len(w) {
+					db.Close()
+					fail("C21/backup-has-extra-rows", "a successful backup contains rows that were never committed", "%s: %s has %d entries, committed state at version %d has %d", ctxs, tb, len(g), va, len(w))
+					return
+				}
+				for i := range w {
+					if g[i] != w[i] {
+						db.Close()
+						fail("C21/mixed-points-in-time/"+b.Format, "a successful "+b.Format+" backup shows two tables at different versions",
+							"%s: version tables say %d, but %s holds %q where the committed state at version %d has %q", ctxs, va, tb, g[i], va, w[i])
+						return
+					}
 				}
 			}
 			db.Close()
